@@ -1,8 +1,8 @@
 /-
 WP close, step 5: THE WORLD — every object the composed functions use is the model of the real constructor / object:
 
-  * primes of every table: `genCore l1raw kib` = `Pc.PsCore.generatePrimes` (the C18 model of the bundled primesieve) on every range
-    `[lo, hi)` with `hi ≤ 2^64` (the C++ type of `stop` is `uint64_t`; beyond, the defining filter only makes the function total);
+  * primes of every table: `genTo l1raw kib bnd` = `Pc.PsCore.generatePrimes` (the C18 model of the bundled primesieve) on every range
+    `[lo, hi)` with `hi ≤ bnd ≤ 2^64` (the C++ type of `stop` is `uint64_t`; beyond, the defining filter only makes the function total);
   * `T.t`, `T.hardEnv`, `T.dEnv`: `realNT` / `realHardEnv` / `realDEnv` = generate_primes, PiTable, FactorTable, FactorTableD, phi_vector by the
     C17 constructor models over that generator (step 4);
   * `T.it`: `It.realIter (It.coreEnv …)` = `primesieve::iterator` (model of WP iter) over the same sieving core (step 2);
@@ -21,23 +21,24 @@ namespace Pc.Close
 open Nat Pc.Hard Pc.PhiVec Pc.Top Pc.PsCore Pc.LB PcGen.ApiConst Pc.PhiAlgProofs Pc.ClosePhi
 open scoped Nat.Prime
 
-/-- the primesieve generator model of C18 on `[lo, hi)` for every `hi ≤ 2^64` (the whole domain of the real function), the defining filter
-    beyond (only to make the function total: `PrimeGenSpec` quantifies ranges of any size) -/
-def genCore (l1raw kib : ℕ) : PrimeGen := fun lo hi =>
+/-- the primesieve generator model of C18 on every range `[lo, hi)` with `hi ≤ bnd`; the defining filter beyond (only to make the function
+    total: `PrimeGenSpec` quantifies ranges of any size).  `bnd = 2^64` is the whole domain of the real function (`stop` is a `uint64_t`). -/
+def genTo (l1raw kib bnd : ℕ) : PrimeGen := fun lo hi =>
   if hi = 0 then [] else
-  if hi ≤ 2 ^ 64 then generatePrimes (preTabsDecoded ()) l1raw lo (hi - 1) kib
+  if hi ≤ bnd then generatePrimes (preTabsDecoded ()) l1raw lo (hi - 1) kib
   else (List.range' lo (hi - lo)).filter (fun q => decide q.Prime)
 
-/-- `PrimeGenSpec` (hypothesis of every C17 constructor theorem) for the real generator model, under the ONE float assumption of C18 -/
-theorem genCore_spec (l1raw kib : ℕ) (hfl : It.CoreFloatOk l1raw kib) (hk : 16 ≤ kib) (hk2 : kib ≤ 8192) :
-    PrimeGenSpec (genCore l1raw kib) := by
+/-- `PrimeGenSpec` (hypothesis of every C17 constructor theorem) for the real generator model, under the ONE float assumption of C18 for
+    the windows below `bnd` (a theorem for `bnd ≤ 2^50`) -/
+theorem genTo_spec (l1raw kib bnd : ℕ) (hb : bnd ≤ 2 ^ 64) (hfl : ∀ a b, b < bnd → FloatOk l1raw (max 721 a) b kib)
+    (hk : 16 ≤ kib) (hk2 : kib ≤ 8192) : PrimeGenSpec (genTo l1raw kib bnd) := by
   intro lo hi
-  unfold genCore
+  unfold genTo
   by_cases h0 : hi = 0
   · rw [if_pos h0]
     exact ⟨List.Pairwise.nil, fun q => by simp only [List.not_mem_nil, false_iff]; omega⟩
   rw [if_neg h0]
-  by_cases h64 : hi ≤ 2 ^ 64
+  by_cases h64 : hi ≤ bnd
   · rw [if_pos h64, generator_contract l1raw lo (hi - 1) kib (by omega) hk hk2 (hfl lo (hi - 1) (by omega))]
     refine ⟨List.Pairwise.filter _ List.pairwise_lt_range, fun q => ?_⟩
     simp only [List.mem_filter, List.mem_range, Bool.and_eq_true, decide_eq_true_eq]
@@ -56,6 +57,9 @@ structure World where
   /-- primesieve configuration: L1 cache size as detected, sieve size in KiB -/
   l1raw : ℕ
   kib : ℕ
+  /-- the sieving-core model is used for every window below `bnd` (`2^64`: the whole domain, under the float assumption `OK.float`;
+      `2^50`: no assumption left) -/
+  bnd : ℕ
   /-- `double` outcomes of IteratorHelper (any), batch sizes of `fillNextPrimes` (any), stop hints of the iterators (any `≤ 2^64-1`) -/
   fl : It.Floats
   batch : ℕ → ℕ
@@ -79,8 +83,8 @@ structure World where
 
 namespace World
 
-def gen (W : World) : PrimeGen := genCore W.l1raw W.kib
-def env (W : World) : It.Env := It.coreEnv W.fl W.batch W.l1raw W.kib
+def gen (W : World) : PrimeGen := genTo W.l1raw W.kib W.bnd
+def env (W : World) : It.Env := It.coreEnvTo W.fl W.batch W.l1raw W.kib W.bnd
 /-- `primesieve::iterator` over the real sieving core -/
 def it (W : World) : P2L.Iter := It.realIter W.env W.hp W.hn
 /-- the tables of one run (`wide` = entry type of FactorTable / FactorTableD: the 64-bit resp. 128-bit instantiation) -/
@@ -93,19 +97,21 @@ def P (W : World) : ℕ → ℕ → PhiTop :=
 def phi (W : World) : ℕ → ℕ → ℕ := phiReal W.P W.order W.sched
 
 /-- the hypotheses about the world that are NOT about a particular run: the configuration range of primesieve, the one float
-    assumption of the sieving core (a theorem below 2^50), hints inside `uint64_t`, and the C07 conclusion for `phi_vector`'s calls -/
+    assumption of the sieving core for the windows below `bnd` (a theorem for `bnd ≤ 2^50`: `ok_of_bnd50`), hints inside `uint64_t`, and the C07 conclusion for `phi_vector`'s calls -/
 structure OK (W : World) (B : ℕ) : Prop where
   kib_lo : 16 ≤ W.kib
   kib_hi : W.kib ≤ 8192
-  float : It.CoreFloatOk W.l1raw W.kib
+  bnd_le : W.bnd ≤ 2 ^ 64
+  float : ∀ a b, b < W.bnd → FloatOk W.l1raw (max 721 a) b W.kib
   hints : ∀ n, W.hn n ≤ It.umax
   size : B ≤ W.N
   phiVec : PhiNegSpec W.phiNeg (π B)
 
-theorem gen_spec (W : World) {B : ℕ} (h : W.OK B) : PrimeGenSpec W.gen := genCore_spec _ _ h.float h.kib_lo h.kib_hi
+theorem gen_spec (W : World) {B : ℕ} (h : W.OK B) : PrimeGenSpec W.gen :=
+  genTo_spec _ _ _ h.bnd_le h.float h.kib_lo h.kib_hi
 
 theorem it_specTo (W : World) {B : ℕ} (h : W.OK B) : P2L.IterSpecTo W.it It.maxPrime64 :=
-  It.realIter_specTo_maxPrime64 W.env (It.coreEnv_genSpec _ _ _ _ h.float h.kib_lo h.kib_hi) W.hp W.hn h.hints
+  It.realIter_specTo_maxPrime64 W.env (It.coreEnvTo_genSpec _ _ _ _ _ h.bnd_le h.float h.kib_lo h.kib_hi) W.hp W.hn h.hints
 
 theorem maxPrime64_ge : 2 ^ 64 - 2 ^ 32 ≤ It.maxPrime64 := by unfold It.maxPrime64; norm_num
 
